@@ -388,3 +388,70 @@ func c04Partial(x *X) {
 func init() {
 	register(&Scenario{Prop: "C04", Name: "c04/partial-encodings", Quick: []Bound{{0, 0}, {1, 0}}, Thorough: []Bound{{2, 0}}, Body: c04Partial, BudgetQ: 15, MinHB: 1})
 }
+
+// a few hundred calls on one connection that alternate between registered methods whose names
+// have the same length (Svc.Echo, Svc.Eco1, Svc.Eco2), an unknown method of that length
+// (Svc.Eco9) and failing calls: every request is executed exactly once by the handler it names,
+// unknown methods by none.  Default schedule; header encoders default / code / json.
+func manyCallsEqualNames(prop string) func(x *X) {
+	return func(x *X) {
+		enc := []string{"", "code", "json"}[x.Choose(3)]
+		pattern := x.Choose(3)
+		so := srvOpts{bufSize: 64, enc: enc}
+		if x.Choose(2) == 1 {
+			so.pipelining = true
+		}
+		f := newFixture(so, cliOpts{bufSize: 64})
+		names := []string{"Echo", "Eco1", "Eco2", "Eco9"}
+		n := 200
+		for i := 0; i < n; i++ {
+			var k int
+			switch pattern {
+			case 0: // X, X, Y
+				k = []int{0, 0, 1, 1, 1, 3, 2, 2, 0}[i%9]
+			case 1: // strict alternation
+				k = i % 4
+			case 2: // long runs
+				k = (i / 17) % 4
+			}
+			tag := byte(i + 1)
+			flags := byte(0)
+			if i%11 == 10 && k != 3 {
+				flags = fErr
+				f.w.errText[tag] = fmt.Sprintf("failure of request %d", i)
+			}
+			c := newUcall(tag, flags, 9, formCall) // equal sizes: every frame has the method name at the same offset
+			c.method = "Svc." + names[k]
+			c.issue(f.conn)
+			ran := f.w.ran[tag]
+			switch {
+			case k == 3:
+				if c.err == nil || c.err.Error() != "can't find service Svc.Eco9" {
+					x.Fail(prop+"/unknown-method-outcome/equal-length-names", "request %d for the unknown method Svc.Eco9 returned err=%v", i, c.err)
+				}
+				if len(ran) != 0 {
+					x.Fail(prop+"/phantom-execution/equal-length-names", "request %d names the unknown method Svc.Eco9 but handler %v ran for it", i, ran)
+				}
+			case len(ran) != 1 || ran[0] != names[k]:
+				x.Fail(prop+"/wrong-handler/equal-length-names", "request %d names Svc.%s; handlers invoked for it: %v (header encoder %q, pattern %d)", i, names[k], ran, enc, pattern)
+			case flags&fErr != 0:
+				if c.err == nil || c.err.Error() != f.w.errText[tag] {
+					x.Fail(prop+"/error-text/equal-length-names", "request %d: handler returned %q, the call returned %v", i, f.w.errText[tag], c.err)
+				}
+			case c.err != nil || !eqBytes(c.reply, c.want()):
+				x.Fail(prop+"/wrong-outcome/equal-length-names", "request %d (Svc.%s): err=%v reply %x", i, names[k], c.err, c.reply)
+			}
+			if len(x.viol) > 3 {
+				break
+			}
+		}
+		x.Outcome("enc=%q pattern=%d pipe=%v", enc, pattern, so.pipelining)
+		f.conn.Close()
+		vs.Quiesce()
+	}
+}
+
+func init() {
+	register(&Scenario{Prop: "C04", Name: "c04/many-calls-equal-length-names", Quick: []Bound{{0, 0}}, Thorough: []Bound{{1, 0}}, Body: manyCallsEqualNames("C04"), MaxSteps: 1000000, BudgetQ: 15, MinHB: 1})
+	register(&Scenario{Prop: "C06", Name: "c06/many-calls-equal-length-names", Quick: []Bound{{0, 0}}, Thorough: []Bound{{1, 0}}, Body: manyCallsEqualNames("C06"), MaxSteps: 1000000, BudgetQ: 15, MinHB: 1})
+}
